@@ -95,6 +95,10 @@ func cfgGen(t *rapid.T) prog.Config {
 	mins := []int{0, 0, 1, 16, 512, 1000, 1 << 30}
 	cfg.CMin = rapid.SampledFrom(mins).Draw(t, "cMin")
 	cfg.HMin = rapid.SampledFrom(mins).Draw(t, "hMin")
+	// far above every generated message: only there so that a defect that
+	// desynchronises the stream cannot make the receiver allocate gigabytes
+	// for a garbage length prefix (which would merely slow the search down)
+	cfg.CReadMax, cfg.HReadMax = 32<<20, 32<<20
 	return cfg
 }
 
